@@ -50,6 +50,10 @@ CLAIMED = {
              text="Each piece runs the real function (console.c included into the harness TU) from a directly constructed arbitrary valid state with all data symbolic: do_tokenize vs a reference splitter written from the statement; one input byte through console_run vs an abstract line editor incl. the 79-character limit; find_command/console_register incl. the full table; console_eval on an exactly-sized heap console_t so out-of-object writes are dereference failures. The editor step is inductive over input streams.",
              note="Trusted: cbmc 6.11 + minisat, the reference splitter and abstract editor in harness/c15_*.c, cbmc's C-locale ctype models. Whole-pipeline-from-init runs are outside (no verdict); console_process/console_putchar are covered as ringbuf_put + console_run by composition.",
              ref="C15"),
+ "C08": dict(technique="grammar-driven generation of protothread programs; per program, bounded symbolic execution (cbmc, SAT) of the real PT_* macros against a direct-style twin emitted from the same AST, over every condition tape",
+             text="Program text cannot be a solver variable (the macros work through __LINE__/switch), so programs are enumerated by a generator (10 fixed shapes naming each clause of the statement + seeded random ASTs); for each program the solver covers EVERY data-dependent path: the log of effects and return codes from invoking the real-macro body until exit must equal one run of the direct-style twin on the same symbolic tape.",
+             note="Trusted: vt/ptgen.py's direct-style emission as the meaning of 'sequential program cut at blocking points'; cbmc 6.11 + minisat. The quantifier over programs is sampled, not exhausted - stated in the evidence.",
+             ref="C08"),
 }
 NA = {}
 
